@@ -16,6 +16,7 @@
      halfrate <slot> <f>      crosslap <slot1> <slot2>      clear <slot>
    answers are one line per op, beginning with the op name.
 */
+#include <unistd.h>
 #include "mkstream.h"
 
 #define C7_SLOTS 4
@@ -231,7 +232,8 @@ static void c7_damage(int kind,long a,long b){
 
 /* page-level damage: the physical stream is cut into its pages (and the junk between them), edited, and glued together again.
    kinds: 6 delete page i; 7 duplicate page i; 8 swap pages i and j; 9 serial of page i := v; 10 granule position of page i := v;
-   11 header-type flags of page i ^= v; 12 page sequence number of page i := v.  Edited pages get a fresh CRC. */
+   11 header-type flags of page i ^= v; 12 page sequence number of page i := v; 13 v junk bytes inserted in front of page i.
+   Edited pages get a fresh CRC. */
 typedef struct { long off,len; int ispage; } c7_seg;
 static int c7_segments(buf_t *b,c7_seg *seg,int max){
   ogg_sync_state oy; ogg_page og; long off=0; int n=0;
@@ -259,6 +261,7 @@ static void c7_pagedamage(int kind,long i,long j,long long v){
   for(k=0;k<n;k++){
     int me=(k==idx[i]);
     unsigned char *src=c7_phys.p+seg[k].off; long len=seg[k].len;
+    if(kind==13&&me){ long q; uint32_t st=(uint32_t)(v*2654435761u+k)|1; for(q=0;q<v&&q<4000000;q++){ unsigned char c; st^=st<<13; st^=st>>17; st^=st<<5; c=st&255; if(c=='O')c='o'; buf_add(&out,&c,1); } }
     if(kind==6&&me)continue;
     if(kind==8&&(k==idx[i]||k==idx[j])){ int o=(k==idx[i])?idx[j]:idx[i]; buf_add(&out,c7_phys.p+seg[o].off,seg[o].len); continue; }
     {
@@ -315,6 +318,7 @@ static int c07_main(int argc,char **argv){
     op=tok[0];
     if(!strcmp(op,"case")){
       printf("== case %s\n",n>1?tok[1]:"?"); fflush(stdout);
+      { const char *t=getenv("VERIF_CASE_TIMEOUT"); alarm(t?atoi(t):120); }   /* a call that never returns ends the process: the batch runner blames this case */
       for(i=0;i<C7_SLOTS;i++) if(c7h[i].open){ ov_clear(&c7h[i].vf); c7h[i].open=0; }
       c7_phys.n=0; c7_nlinks=0; c7_free_ref(0); c7_free_ref(1);
     }else if(!strcmp(op,"link")&&n>=9){
@@ -415,6 +419,12 @@ static int c07_main(int argc,char **argv){
         char *buf=malloc(atoi(tok[2])+16); int bs=-7; ogg_int64_t t0=ov_pcm_tell(vf); long r=ov_read(vf,buf,atoi(tok[2]),atoi(tok[3]),atoi(tok[4]),atoi(tok[5]),&bs);
         if(r>0&&!vf->seekable&&bs>=0&&bs<64){ vorbis_info *vi=ov_info(vf,-1); if(vi&&atoi(tok[4])>0) H->seq[bs]+=r/(atoi(tok[4])*vi->channels); }
         printf("readi rc=%s link=%d t0=%lld t1=%lld\n",ovname(r),r>0?bs:-1,(long long)t0,(long long)ov_pcm_tell(vf)); free(buf);
+      }else if(!strcmp(op,"rawseekto")&&n>=3){
+        /* raw seek to the byte position handle <src> stands at right now (the no-op case of _seek_helper when src is the handle itself) */
+        c7_handle *S=&c7h[atoi(tok[2])%C7_SLOTS]; ogg_int64_t pos=S->open?ov_raw_tell(&S->vf):0; int rc;
+        H->lap_valid=0; H->stale=0;
+        rc=ov_raw_seek(vf,pos);
+        printf("rawseekto rc=%s tell=%lld state=%d link=%d\n",ovname(rc),(long long)ov_pcm_tell(vf),vf->ready_state,vf->ready_state>=STREAMSET?vf->current_link:-1);
       }else if(!strncmp(op,"rawseek",7)||!strncmp(op,"pcmseekpage",11)||!strncmp(op,"pcmseek",7)){
         ogg_int64_t pos=atoll(tok[2]); int lap=(strstr(op,"lap")!=NULL); int rc;
         ogg_int64_t oldpos=ov_pcm_tell(vf); int oldlink=(vf->seekable&&vf->ready_state>=STREAMSET)?vf->current_link:-1; int ohs=ov_halfrate_p(vf)>0;
